@@ -358,9 +358,42 @@ def slow_monitor(case, il, sl):
     return None
 
 
+def behind_open_ok_cases(tier):
+    """Complete frames in the same write as OpenOk (or 300 ms behind it): they belong to the
+    established connection, which acts on them as it would later."""
+    import amqp
+    blocked = amqp.connection_blocked("low on memory")
+    close = amqp.connection_close(320, "bye")
+    tune = amqp.connection_tune(10, 8192, 5)
+    cases = []
+    for i, (what, tail, want) in enumerate([("blocked", blocked, "close ok"), ("close", close, "close err ServerClosedConnection 320"),
+                                             ("heartbeat+close", amqp.heartbeat() + close, "close err ServerClosedConnection 320"),
+                                             ("tune", tune, "close err ClientException"), ("blocked+close", blocked + close, "close err ServerClosedConnection 320")]):
+        for k in (len(tail), 0):
+            c = Case("b%d_%d" % (i, k), ["run 0 0 chatty 900 tail=%s,%d" % (tail.hex(), k)], {"keep_prefix": 0})
+            c.meta["want"] = want
+            c.meta["what"] = what
+            cases.append(c)
+    return cases
+
+
+def behind_open_ok_monitor(case, il, sl):
+    lines = [l for l in il if l and not l.startswith("#")]
+    if not any(l.startswith("opened") for l in lines):
+        return ("%s right behind OpenOk (%s): the handshake was complete, yet: %s" % (case.meta["what"], "in the same write" if not case.ops[0].endswith(",0") else "300 ms later", lines[:2]), "c16-frames-behind-openok")
+    if not any(l.startswith(case.meta["want"]) for l in lines):
+        return ("%s right behind OpenOk: the connection must treat it like at any later time (%s), got %s" % (case.meta["what"], case.meta["want"], [l for l in lines if l.startswith("close")]), "c16-frames-behind-openok")
+    return None
+
+
 def suites(tier, seed):
     import passlog
-    return [Suite("first-writes-e2e", "hswrite", lambda: passlog.hswrite_cases(tier), monitor=passlog.hswrite_monitor, nontrivial=lambda c, il: True, compare=False, shards=4, shrink=False, timeout=200,
+    c17 = __import__("props.c17", fromlist=["x"])
+    return [Suite("frames-behind-open-ok-e2e", "hbe2e", lambda: behind_open_ok_cases(tier), monitor=behind_open_ok_monitor, nontrivial=lambda c, il: True, compare=False, shrink=False, shards=5, timeout=120,
+                  rule="a complete frame - Connection.Blocked, Connection.Close(320), heartbeat + Close, an out-of-order Tune, Blocked + Close - in the SAME write as OpenOk, and 300 ms behind it: open returns a connection either way, and the connection acts on the frame as at any later time (close ok / ServerClosedConnection 320 / ClientException): the outcome does not depend on how the transport segments the server's bytes (finding D18)"),
+            Suite("timeout-is-about-the-handshake-e2e", "hbe2e", lambda: [c for c in c17.gen_e2e(tier, seed) if "timeout=" in c.ops[0]], monitor=c17.e2e_monitor, nontrivial=lambda c, il: True, compare=False, shrink=False, shards=4, timeout=120,
+                  rule="(C17's cases with a connection_timeout) once the handshake is complete the configured timeout is disarmed: an established, quiet connection is judged by its heartbeats alone"),
+            Suite("first-writes-e2e", "hswrite", lambda: passlog.hswrite_cases(tier), monitor=passlog.hswrite_monitor, nontrivial=lambda c, il: True, compare=False, shards=4, shrink=False, timeout=200,
                   rule="the server answers everything it gets; the transport takes only the first 0..12 / 20 / ... / 300 bytes of the client's handshake (would-block inside the protocol header, StartOk, TuneOk, Open) and becomes willing again 250 ms later: the handshake completes (it never hangs while the server responds)"),
             passlog.suite("loop-passes-first-writes", "hswrite", lambda: passlog.hswrite_cases(tier), "the first-writes-e2e cases"),
             Suite("slow-handshake-e2e", "hbe2e", lambda: [Case("s%d" % i, [o], {"keep_prefix": 0}) for i, o in enumerate(
